@@ -127,6 +127,77 @@ func (v *Verifier) pos(p token.Pos) string {
 	return fmt.Sprintf("%s:%d", strings.TrimPrefix(pp.Filename, v.repo+"/"), pp.Line)
 }
 
+var srcCache = map[string][]string{}
+
+// sourceLine returns the trimmed source line of a position (used to name sweep obligations stably).
+func (v *Verifier) sourceLine(p token.Pos) string {
+	if !p.IsValid() {
+		return "?"
+	}
+	pp := v.fset.Position(p)
+	lines, ok := srcCache[pp.Filename]
+	if !ok {
+		data, err := os.ReadFile(pp.Filename)
+		if err == nil {
+			lines = strings.Split(string(data), "\n")
+		}
+		srcCache[pp.Filename] = lines
+	}
+	if pp.Line-1 < len(lines) && pp.Line >= 1 {
+		l := strings.TrimSpace(lines[pp.Line-1])
+		if len(l) > 90 {
+			l = l[:90]
+		}
+		return l
+	}
+	return "?"
+}
+
+// SweepTargets lists the functions of a package that have no contract (for the zero-annotation safety sweep).
+func (v *Verifier) SweepTargets(pkgPath string) []*ssa.Function {
+	p := v.pkgByPath[pkgPath]
+	if p == nil {
+		return nil
+	}
+	sp := v.prog.Package(p.Types)
+	var out []*ssa.Function
+	seen := map[*ssa.Function]bool{}
+	var add func(fn *ssa.Function)
+	add = func(fn *ssa.Function) {
+		if fn == nil || seen[fn] || fn.Blocks == nil || fn.Synthetic != "" {
+			return
+		}
+		seen[fn] = true
+		if strings.HasSuffix(v.fset.Position(fn.Pos()).Filename, "_test.go") {
+			return
+		}
+		if spec, _ := v.specFor(fn); spec == nil {
+			out = append(out, fn)
+		}
+		for _, a := range fn.AnonFuncs {
+			add(a)
+		}
+	}
+	var names []string
+	for n := range sp.Members {
+		names = append(names, n)
+	}
+	sort.Strings(names)
+	for _, n := range names {
+		switch mm := sp.Members[n].(type) {
+		case *ssa.Function:
+			add(mm)
+		case *ssa.Type:
+			if named, ok := mm.Type().(*types.Named); ok {
+				for i := 0; i < named.NumMethods(); i++ {
+					add(v.prog.FuncValue(named.Method(i)))
+				}
+			}
+		}
+	}
+	return out
+}
+
 func (v *Verifier) typesPkgOf(cs *ContractSet) *types.Package {
 	if p, ok := v.pkgByPath[cs.PkgPath]; ok {
 		return p.Types
@@ -791,11 +862,12 @@ type FuncResult struct {
 	RetPaths    int
 	CoverHyps   []*Term
 	Err         string
+	Sweep       bool
 }
 
 func (v *Verifier) VerifyFunc(cs *ContractSet, spec *FuncSpec) (res *FuncResult) {
 	fname := cs.Label + "." + spec.Target
-	res = &FuncResult{Name: fname}
+	res = &FuncResult{Name: fname, Sweep: spec.Has("sweep")}
 	v.activateImmutables(cs)
 	fn := v.lookupFunc(cs.PkgPath, spec.Target)
 	if fn == nil {
@@ -811,6 +883,13 @@ func (v *Verifier) VerifyFunc(cs *ContractSet, spec *FuncSpec) (res *FuncResult)
 		r.maxPaths = atoi(mp)
 	}
 	r.safe = spec.Has("safe")
+	r.siteNames = spec.Has("sweep")
+	if kinds := strings.Fields(spec.Flags["safe"]); len(kinds) > 0 {
+		r.safeKinds = map[string]bool{}
+		for _, k := range kinds {
+			r.safeKinds[k] = true
+		}
+	}
 	if m, ok := spec.Flags["mode"]; ok && strings.Contains(m, "overflow") {
 		r.overflow = true
 	}
@@ -954,8 +1033,20 @@ func (v *Verifier) VerifyFunc(cs *ContractSet, spec *FuncSpec) (res *FuncResult)
 		fr.entry = st.clone()
 		r.execBlock(st, fr, fn.Blocks[0], nil)
 	}
+	// requested safety kinds exist as clauses even when the function has no such site (left)
+	for k := range r.safeKinds {
+		found := false
+		for _, o := range r.obligs {
+			if o.Clause == "safe."+k {
+				found = true
+			}
+		}
+		if !found && !r.siteNames {
+			r.obligs = append(r.obligs, &Oblig{Func: fname, Clause: "safe." + k, Props: spec.Props, Goal: True, Trivial: true, Sub: "no such site"})
+		}
+	}
 	// the nopanic clause exists even when no explicit panic is reachable at all
-	if spec.Has("nopanic") || spec.Has("safe") {
+	if spec.Has("nopanic") || (spec.Has("safe") && len(r.safeKinds) == 0) {
 		found := false
 		for _, o := range r.obligs {
 			if o.Clause == "nopanic" {
